@@ -40,8 +40,11 @@ TExit    == IsEvent("Exit") /\ Exit(Ev.t, Ev.how) /\ act'.r = Ev.r
 TRegister == IsEvent("RegisterDefault") /\ RegisterDefault(Ev.t, Ev.ty)
 TInherit == IsEvent("Inherit") /\ Inherit(Ev.t, Ev.p)
 \* the only event with an observation: the handler tags the real code returned
-TProbe   == IsEvent("Probe") /\ Probe(Ev.t)
+TProbe   == /\ IsEvent("Probe")
+            /\ Probe(Ev.t)
             /\ \A ty \in ReqTypes : act'.srv[Ev.t][ty] = Ev.res[ty]
+            \* ... and what reached the caller when the serving handler raised
+            /\ ("resx" \in DOMAIN Ev) => (\A ty2 \in ReqTypes : act'.srvx[Ev.t][ty2] = Ev.resx[ty2])
 
 TDone == l = Len(Trace) + 1 /\ UNCHANGED tvars
 
